@@ -851,7 +851,37 @@ pub fn exec(sc: &Scenario, opts: &ExecOpts) -> RunOutcome {
     if let Some(mut stdin) = child.stdin.take() {
         let _ = stdin.write_all(req.as_bytes());
     }
-    let res = child.wait_with_output();
+    // last-resort watchdog for a loop that contains no yield point (no grammar terminal, no file
+    // operation): wall-clock time is used only here, and only to end such an execution
+    let limit = std::time::Duration::from_secs(
+        std::env::var("SVSIM_WATCHDOG_S").ok().and_then(|s| s.parse().ok()).unwrap_or(90),
+    );
+    let stdout = child.stdout.take();
+    let reader = std::thread::spawn(move || {
+        let mut buf = Vec::new();
+        if let Some(mut so) = stdout {
+            let _ = std::io::Read::read_to_end(&mut so, &mut buf);
+        }
+        buf
+    });
+    let t0 = std::time::Instant::now();
+    let status = loop {
+        match child.try_wait() {
+            Ok(Some(st)) => break Ok(st),
+            Ok(None) => {
+                if t0.elapsed() > limit {
+                    let _ = child.kill();
+                    let _ = child.wait();
+                    let _ = reader.join();
+                    out.aborted = Some(format!("watchdog: no result after {} s of wall-clock time", limit.as_secs()));
+                    return out;
+                }
+                std::thread::sleep(std::time::Duration::from_micros(if t0.elapsed().as_millis() < 20 { 200 } else { 2000 }));
+            }
+            Err(e) => break Err(e),
+        }
+    };
+    let res = status.map(|st| std::process::Output { status: st, stdout: reader.join().unwrap_or_default(), stderr: vec![] });
     match res {
         Err(e) => {
             out.harness_error = Some(format!("wait exec1: {}", e));
